@@ -65,8 +65,24 @@ func one(c *ev.Ctx, r *rand.Rand, sample bool) {
 	doc := gen.AnyDoc(r, o)
 	n := 2 + r.Intn(7)
 	var widths []int
+	// the UI's pattern: a body is shown at the pane width and, as a preview, a few columns narrower, alternating, across resizes
+	var pattern []int
+	if r.Intn(4) == 0 {
+		d := []int{4, 4, 8, 2, 1}[r.Intn(5)]
+		for len(pattern) < n+2 {
+			w := d + 1 + r.Intn(120)
+			pattern = append(pattern, w, w-d)
+			if r.Intn(3) == 0 {
+				pattern = append(pattern, w)
+			}
+		}
+		n = len(pattern)
+	}
 	for i := 0; i < n; i++ {
 		w := pickWidth(r, widths)
+		if pattern != nil {
+			w = pattern[i]
+		}
 		// <hr> at a negative effective width panics on the pinned tree (C06's finding): keep hr documents at widths that leave room
 		if doc.HasHr && w <= doc.MaxIndent {
 			w = doc.MaxIndent + 1 + r.Intn(20)
